@@ -540,9 +540,7 @@ func runReplay(stallMs int) {
 		}
 		fail := func(class string, k int, detail string) {
 			nbad++
-			lo := max(0, k-6)
-			report(class, map[string]any{"schedule": nsched, "step": k, "steps": sc.Steps[:min(k+1, len(sc.Steps))][lo:],
-				"prefix_len": k}, detail)
+			report(class, map[string]any{"schedule": nsched, "step": k, "steps": sc.Steps[:min(k+1, len(sc.Steps))]}, detail)
 		}
 		stalled := false
 		for k := range sc.Steps {
